@@ -4634,9 +4634,15 @@ class NameCheckVisitor(node_visitor.ReplacingNodeVisitor):
         elif value.is_type(collections.abc.Awaitable) or value.is_type(asyncio.Future):
             if self.is_async_def:
                 new_node = ast.Expr(value=ast.Await(value=node.value))
-            else:
+            elif self.current_function_name is not None:
                 new_node = ast.Expr(value=ast.YieldFrom(value=node.value))
-            replacement = self.replace_node(node, new_node)
+            else:
+                # Outside a function there is nothing valid to replace it with.
+                new_node = None
+            if new_node is None:
+                replacement = None
+            else:
+                replacement = self.replace_node(node, new_node)
             self._show_error_if_checking(
                 node, error_code=ErrorCode.missing_await, replacement=replacement
             )
